@@ -71,6 +71,12 @@ def enc_uint(ex, s, width, v, node):
 
 
 def enc_string(ex, s, v, node):
+    if isinstance(v, VOpt) or v is VNone:
+        # String(None) -> TypeError (len(None)); otherwise the wrapped value
+        res = []
+        for s1, v1 in ex.unopt(s, v, node):
+            res.extend([(s1, v1)] if isinstance(v1, Raised) else enc_string(ex, s1, v1, node))
+        return res
     v = ex.deref(s, v)
     if isinstance(v, VStr):
         # String(str) encodes as UTF-8 first: uninterpreted
@@ -98,9 +104,18 @@ def call_builtin(ex, s, key, recv, args, kwargs, node):
         return QUALIFIED[key](ex, s, args, kwargs, node)
     meth = key.rsplit('.', 1)[-1]
     r = ex.deref(s, recv)
+    if isinstance(r, VTag) and r.tag == 'regex':
+        from . import regex_model
+        return regex_model.regex_call(ex, s, r.payload, meth, args, node)
     table = None
     if isinstance(r, VBytes):
         table = BYTES_METHODS
+        if meth in ('find', 'split', 'strip', 'lstrip', 'rstrip'):
+            # exact structural evaluation on concatenation terms (pyvc/bstruct.py); None -> general model below
+            from . import bstruct
+            sres = bstruct.try_method(ex, s, meth, r, args, kwargs, node)
+            if sres is not None:
+                return sres
     elif isinstance(r, VStr):
         table = STR_METHODS
     elif isinstance(r, (VList, VSeq)):
@@ -111,6 +126,10 @@ def call_builtin(ex, s, key, recv, args, kwargs, node):
         table = INT_METHODS
     elif isinstance(r, VSet):
         table = SET_METHODS
+    elif isinstance(r, VPy):
+        table = PYOBJ_METHODS
+    elif isinstance(r, VSymSet):
+        table = SYMSET_METHODS
     if table and meth in table:
         return table[meth](ex, s, recv, r, args, kwargs, node)
     return None
@@ -185,9 +204,26 @@ def b_int(ex, s, args, kw, node):
     if isinstance(v, VBool):
         return [(s, VInt(z3.If(v.z, 1, 0)))]
     if isinstance(v, (VStr, VBytes)):
-        # int(text[, base]): ValueError unless the text is a valid literal (uninterpreted predicate)
-        valid = z3.Function('int_literal_ok_' + ('s' if isinstance(v, VStr) else 'b'), v.z.sort(), BoolS)
-        val = z3.Function('int_literal_val_' + ('s' if isinstance(v, VStr) else 'b'), v.z.sort(), IntS)
+        # int(text[, base]): ValueError unless the text is a valid literal (uninterpreted predicate, one per base)
+        base = args[1] if len(args) > 1 else kw.get('base')
+        sfx = ''
+        if base is not None:
+            cb = concrete_int(base)
+            if cb is None:
+                raise Unsupported('int() with a symbolic base')
+            sfx = '' if cb == 10 else str(cb)
+        valid = z3.Function('int_literal_ok_' + ('s' if isinstance(v, VStr) else 'b') + sfx, v.z.sort(), BoolS)
+        val = z3.Function('int_literal_val_' + ('s' if isinstance(v, VStr) else 'b') + sfx, v.z.sort(), IntS)
+        if isinstance(v, VBytes) and sfx in ('', '8'):
+            # necessary conditions of CPython's literal syntax (they keep counter-models realistic): a valid literal
+            # is non-empty, starts with a digit, a sign or whitespace and ends with a digit of the base or whitespace
+            top = 57 if sfx == '' else 55
+            isws = lambda b: z3.Or(z3.And(b >= 9, b <= 13), b == 32)
+            n = z3.Length(v.z)
+            last = v.z[n - 1]
+            s.assume(z3.Implies(valid(v.z), z3.And(
+                n >= 1, z3.Or(z3.And(last >= 48, last <= top), isws(last)),
+                z3.Or(z3.And(v.z[0] >= 48, v.z[0] <= top), v.z[0] == 43, v.z[0] == 45, isws(v.z[0])))))
         res = []
         for s2, ok in ex.branch(s, valid(v.z), node):
             res.append((s2, VInt(val(v.z))) if ok else _raise(s2, 'ValueError'))
@@ -226,7 +262,33 @@ def b_bytes(ex, s, args, kw, node):
             else:
                 out.append(_raise(s2, 'ValueError'))
         return out
+    if isinstance(v, VTag) and v.tag == 'range':
+        # bytes(range(lo, hi)) == lo, lo+1, ..., hi-1; ValueError when a value is outside 0..255
+        lo, hi = v.payload
+        out = []
+        for s2, ok in ex.branch(s, z3.Or(hi <= lo, z3.And(lo >= 0, hi <= 256)), node):
+            if not ok:
+                out.append(_raise(s2, 'ValueError'))
+                continue
+            clo, chi = concrete_int(VInt(lo)), concrete_int(VInt(hi))
+            if clo is not None and chi is not None:
+                out.append((s2, VBytes(bytes(range(clo, chi)))))
+                continue
+            out.append((s2, VBytes(iota_term(s2, lo, hi))))
+        return out
     raise Unsupported(f'bytes({v!r})')
+
+
+iota = z3.Function('iota', IntS, IntS, BytesS)      # iota(lo, hi) == bytes(range(lo, hi))
+
+
+def iota_term(s, lo, hi):
+    """bytes(range(lo, hi)) with its definition instantiated for this use (length and every element)"""
+    t = iota(lo, hi)
+    j = z3.Int(fresh_name('iota_j'))
+    s.assume(z3.Length(t) == z3.If(hi > lo, hi - lo, 0))
+    s.assume(z3.ForAll([j], z3.Implies(z3.And(j >= 0, j < z3.Length(t)), t[j] == lo + j)))
+    return t
 
 
 def b_bytearray(ex, s, args, kw, node):
@@ -251,9 +313,18 @@ def b_isinstance(ex, s, args, kw, node):
     from . import extract
     if isinstance(v, VExc):
         return [(s, VBool(any(extract.is_subclass(v.cls, n) for n in names)))]
+    if isinstance(v, VOpaque) and v.sortname == 'Exc' and any(n in ('Exception', 'BaseException') for n in names):
+        return [(s, VBool(True))]      # sort Exc = instances of Exception (what Optional[Exception] fields hold)
     if isinstance(v, VOpaque):
         f = z3.Function('isinstance_' + v.sortname + '_' + '_'.join(names), v.z.sort(), BoolS)
         return [(s, VBool(f(v.z)))]
+    if isinstance(v, VOrExc):
+        # data-or-exception element: no fork, the answer is an ite over the tag
+        (_s1, re_), = b_isinstance(ex, s, [v.exc, cls], kw, node)
+        rv = b_isinstance(ex, s, [v.val, cls], kw, node)
+        if len(rv) != 1:
+            raise Unsupported('isinstance on a data-or-exception value whose data side forks')
+        return [(s, VBool(z3.Or(z3.And(v.isexc, re_.z), z3.And(z3.Not(v.isexc), rv[0][1].z))))]
     if isinstance(v, VOpt):
         out = []
         for s2, isn in ex.branch(s, v.isnone, node):
@@ -264,6 +335,13 @@ def b_isinstance(ex, s, args, kw, node):
         return out
     if v is VNone:
         return [(s, VBool(False))]
+    if isinstance(v, VPy):
+        P = pyobj_sort()
+        tests = {'bool': [P.is_py_bool], 'int': [P.is_py_int, P.is_py_bool], 'str': [P.is_py_str],
+                 'list': [P.is_py_strlist], 'tuple': [P.is_py_tuple0, P.is_py_tuple2]}
+        if any(n not in tests for n in names):
+            raise Unsupported(f'isinstance(pyobj, {names})')
+        return [(s, VBool(z3.Or([t(v.z) for n in names for t in tests[n]])))]
     res = False
     for n in names:
         if n in kinds:
@@ -312,6 +390,11 @@ def b_list(ex, s, args, kw, node):
     if not args:
         return [(s, s.alloc(VList([])))]
     v = ex.deref(s, args[0])
+    if isinstance(v, VOpt) or v is VNone:
+        out = []
+        for s1, v1 in ex.unopt(s, v, node):         # list(None): TypeError
+            out.extend([(s1, v1)] if isinstance(v1, Raised) else b_list(ex, s1, [v1], kw, node))
+        return out
     if isinstance(v, (VTuple, VList)):
         return [(s, s.alloc(VList(v.items)))]
     if isinstance(v, VSeq):
@@ -374,8 +457,20 @@ def b_urandom(ex, s, args, kw, node):
 def b_from_bytes(ex, s, args, kw, node):
     b = ex.deref(s, args[0])
     order = args[1] if len(args) > 1 else kw.get('byteorder')
-    if order is None or concrete_str(order) != 'big' or kw.get('signed') is not None:
-        raise Unsupported('int.from_bytes other than unsigned big-endian')
+    if order is None or concrete_str(order) != 'big':
+        raise Unsupported('int.from_bytes other than big-endian')
+    sg = kw.get('signed')
+    if sg is not None:
+        if concrete_bool(ex.truthy(s, sg)) is not True:
+            raise Unsupported('int.from_bytes with symbolic/false signed=')
+        # two's complement big-endian: never raises; value uninterpreted except for the empty string (== 0)
+        f = z3.Function('sunbe', BytesS, IntS)
+        s.assume(z3.Implies(z3.Length(b.z) == 0, f(b.z) == 0))
+        return [(s, VInt(f(b.z)))]
+    from . import bstruct
+    w = bstruct.be_width(b.z)
+    if w is not None and bstruct.entails(ex, s, z3.And(b.z.arg(1) >= 0, b.z.arg(1) < 256 ** w)):
+        return [(s, VInt(b.z.arg(1)))]      # int.from_bytes(v.to_bytes(w, 'big'), 'big') == v for 0 <= v < 256**w
     return [(s, VInt(unbe_term(s, b.z)))]
 
 
@@ -442,6 +537,19 @@ def by_find(ex, s, recv, r, args, kw, node):
     k = z3.Int(fresh_name('find'))
     j = z3.Int(fresh_name('findj'))
     occ = lambda p: z3.Extract(r.z, p, m) == subz
+    cm = simp(m)
+    if 'find-qf' in ex.spec.tags and z3.is_int_value(cm) and cm.as_long() >= 1:
+        # opt-in (Spec(tags=['find-qf'])): the same least-occurrence semantics without quantifiers, for a needle of
+        # concrete length m >= 1:  no occurrence starting in [lo, k) <=> r[lo : k+m-1] does not contain the needle
+        if z3.is_int_value(simp(_opt_int(ex, args, 1, z3.IntVal(0)))) and simp(_opt_int(ex, args, 1, z3.IntVal(0))).as_long() == 0:
+            lo = z3.IntVal(0)
+        s.assume(z3.Or(
+            z3.And(k == -1, z3.Not(z3.Contains(z3.Extract(r.z, lo, hi - lo), subz))),
+            z3.And(k >= lo, k + m <= hi, occ(k), z3.Not(z3.Contains(z3.Extract(r.z, lo, k + (cm.as_long() - 1) - lo), subz)))))
+        # redundant consequence as a word equation (helps the solver find witnesses): r == pre + needle + post
+        pre, post = z3.Const(fresh_name('find_pre'), r.z.sort()), z3.Const(fresh_name('find_post'), r.z.sort())
+        s.assume(z3.Implies(k >= 0, z3.And(r.z == z3.Concat(pre, subz, post), z3.Length(pre) == k)))
+        return [(s, VInt(k))]
     s.assume(z3.Or(
         z3.And(k == -1, z3.ForAll([j], z3.Implies(z3.And(j >= lo, j + m <= hi), z3.Not(occ(j))))),
         z3.And(k >= lo, k + m <= hi, occ(k),
@@ -450,6 +558,12 @@ def by_find(ex, s, recv, r, args, kw, node):
 
 
 def by_startswith(ex, s, recv, r, args, kw, node):
+    if isinstance(args[0], VOpt) or args[0] is VNone:
+        # Optional prefix/suffix: TypeError when it is None
+        out = []
+        for s1, a1 in ex.unopt(s, args[0], node):
+            out.extend([(s1, a1)] if isinstance(a1, Raised) else by_startswith(ex, s1, recv, r, [a1] + list(args[1:]), kw, node))
+        return out
     p = ex.deref(s, args[0])
     if isinstance(p, VTuple):
         return [(s, VBool(z3.Or([z3.PrefixOf(x.z, r.z) for x in p.items])))]
@@ -457,6 +571,12 @@ def by_startswith(ex, s, recv, r, args, kw, node):
 
 
 def by_endswith(ex, s, recv, r, args, kw, node):
+    if isinstance(args[0], VOpt) or args[0] is VNone:
+        # Optional prefix/suffix: TypeError when it is None
+        out = []
+        for s1, a1 in ex.unopt(s, args[0], node):
+            out.extend([(s1, a1)] if isinstance(a1, Raised) else by_endswith(ex, s1, recv, r, [a1] + list(args[1:]), kw, node))
+        return out
     p = ex.deref(s, args[0])
     if isinstance(p, VTuple):
         return [(s, VBool(z3.Or([z3.SuffixOf(x.z, r.z) for x in p.items])))]
@@ -471,6 +591,8 @@ def by_decode(ex, s, recv, r, args, kw, node):
     if errors is not None:
         return [(s, VStr(z3.String(fresh_name('decoded'))))]
     out = []
+    if enc in ('utf-8', 'utf8', 'ascii', 'latin-1', 'latin1'):
+        s.assume(okf(z3.Empty(BytesS)))      # b''.decode(codec) == '' never fails for these codecs
     for s2, ok in ex.branch(s, okf(r.z), node):
         if ok:
             s2.assume(z3.Length(f(r.z)) <= z3.Length(r.z))
@@ -505,7 +627,38 @@ def join_fn(rsort, seqsort):
 
 
 def by_join(ex, s, recv, r, args, kw, node):
+    if isinstance(args[0], VTag) and args[0].tag == 'genexp' and isinstance(r, VStr) and concrete_str(r) == '':
+        # ''.join(<generator over a symbolic str / list>): cut at the sidecar invariant (see cut_gen)
+        g = args[0].payload
+        out = []
+        for s2, itv in _gen_iter(ex, s, g, node):
+            if isinstance(itv, Raised):
+                out.append((s2, itv))
+            elif _concrete_items(itv) is not None:
+                raise Unsupported('join of a generator over a concrete iterable')
+            else:
+                out.extend(cut_gen(ex, s2, g, itv, node, join=True))
+        return out
     it = ex.deref(s, args[0])
+    if isinstance(it, (VTuple, VList)) and any(isinstance(x, VOpt) or x is VNone for x in it.items):
+        # Optional items: None raises TypeError, otherwise the wrapped value is joined
+        results = [(s, [])]
+        for x in it.items:
+            nxt = []
+            for s1, acc in results:
+                if isinstance(acc, Raised):
+                    nxt.append((s1, acc))
+                    continue
+                for s2, v in ex.unopt(s1, x, node):
+                    nxt.append((s2, v if isinstance(v, Raised) else acc + [v]))
+            results = nxt
+        out = []
+        for s1, acc in results:
+            if isinstance(acc, Raised):
+                out.append((s1, acc))
+            else:
+                out.extend(by_join(ex, s1, recv, r, [VTuple(acc)] + list(args[1:]), kw, node))
+        return out
     if isinstance(it, (VTuple, VList)):
         zs = []
         for i, x in enumerate(it.items):
@@ -546,11 +699,109 @@ def by_strip_like(name):
     return f
 
 
-BYTES_METHODS = {'find': by_find, 'startswith': by_startswith, 'endswith': by_endswith, 'decode': by_decode,
+def by_split_ws(ex, s, recv, r, args, kw, node):
+    """bytes.split(None, k) for a concrete 0 <= k <= 8: a list of at most k+1 fields, one path per field count (so the
+    list has a concrete length).  Count and fields are uninterpreted (wsplit_n(x, k), wsplit_f(x, k, i); real values
+    are supplied to replays through replay.REAL_IMPLS) and characterised exactly as CPython does it:
+    x == w0 + f0 + w1 + f1 + ... where every w is a run of ASCII whitespace bytes (9..13, 32; non-empty between two
+    fields), every field is non-empty, the first k fields contain no whitespace byte, and a (k+1)-th field is the
+    whole rest of x (it starts with a non-whitespace byte); with fewer than k+1 fields x ends in a whitespace run."""
+    ms = args[1] if len(args) > 1 else kw.get('maxsplit')
+    k = concrete_int(ms) if ms is not None else None
+    if not isinstance(r, VBytes) or k is None or not 0 <= k <= 8:
+        raise Unsupported('split() on whitespace: only bytes.split(None, k) with a small constant k is modelled')
+    nf = z3.Function('wsplit_n', BytesS, IntS, IntS)
+    ff = z3.Function('wsplit_f', BytesS, IntS, IntS, BytesS)
+    n = nf(r.z, z3.IntVal(k))
+    wsb = (9, 10, 11, 12, 13, 32)
+    isws = lambda b: z3.Or(z3.And(b >= 9, b <= 13), b == 32)
+    s.assume(z3.And(n >= 0, n <= k + 1))
+    out = []
+    rest = s
+    for cnt in range(k + 2):
+        if rest is None:
+            break
+        if cnt == k + 1:
+            branches = [(rest, True)]
+        else:
+            branches = ex.branch(rest, n == cnt, node)
+        rest = None
+        for s2, side in branches:
+            if not side:
+                rest = s2
+                continue
+            items, pieces = [], []
+            for i in range(cnt + 1):
+                if i == cnt and cnt == k + 1:
+                    break               # the (k+1)-th field runs to the end of x
+                w = z3.Const(fresh_name(f'ws{i}'), BytesS)
+                j = z3.Int(fresh_name('wsj'))
+                s2.assume(z3.ForAll([j], z3.Implies(z3.And(j >= 0, j < z3.Length(w)), isws(w[j]))))
+                if 1 <= i < cnt:
+                    s2.assume(z3.Length(w) >= 1)
+                pieces.append(w)
+                if i < cnt:
+                    f = ff(r.z, z3.IntVal(k), z3.IntVal(i))
+                    s2.assume(z3.Length(f) >= 1)
+                    if i < k:
+                        s2.assume(z3.And([z3.Not(z3.Contains(f, z3.Unit(z3.IntVal(b)))) for b in wsb]))
+                    else:
+                        s2.assume(z3.Not(isws(f[0])))
+                    pieces.append(f)
+                    items.append(VBytes(f))
+            s2.assume(r.z == (pieces[0] if len(pieces) == 1 else z3.Concat(*pieces)))
+            out.append((s2, s2.alloc(VList(items))))
+    return out
+
+
+def by_split(ex, s, recv, r, args, kw, node):
+    """bytes/str .split(sep[, maxsplit]) with an explicit separator: a list of at least one piece, every piece no
+    longer than the receiver (pieces are uninterpreted); ValueError for an empty separator"""
+    if not args or args[0] is VNone:
+        return by_split_ws(ex, s, recv, r, args, kw, node)
+    sep = ex.deref(s, args[0])
+    et = 'bytes' if isinstance(r, VBytes) else 'str'
+    f = z3.Function('split_' + et[0], r.z.sort(), sep.z.sort(), z3.SeqSort(r.z.sort()))
+    out = []
+    for s2, empty in ex.branch(s, z3.Length(sep.z) == 0, node):
+        if empty:
+            out.append(_raise(s2, 'ValueError'))
+            continue
+        pieces = f(r.z, sep.z)
+        k = z3.Int(fresh_name('splitk'))
+        s2.assume(z3.Length(pieces) >= 1)
+        s2.assume(z3.Length(pieces) <= z3.Length(r.z) + 1)
+        s2.assume(z3.ForAll([k], z3.Implies(z3.And(k >= 0, k < z3.Length(pieces)),
+                                            z3.Length(pieces[k]) <= z3.Length(r.z))))
+        out.append((s2, VSeq(pieces, et)))
+    return out
+
+
+BYTES_METHODS = {'split': by_split, 'find': by_find, 'startswith': by_startswith, 'endswith': by_endswith, 'decode': by_decode,
                  'join': by_join, 'hex': by_hex, 'strip': by_strip_like('strip'), 'lower': by_strip_like('lower')}
-STR_METHODS = {'startswith': by_startswith, 'endswith': by_endswith, 'encode': st_encode, 'join': by_join,
-               'find': by_find, 'strip': by_strip_like('strip'), 'lower': by_strip_like('lower')}
+STR_METHODS = {'split': by_split, 'startswith': by_startswith, 'endswith': by_endswith, 'encode': st_encode, 'join': by_join,
+               'find': by_find, 'strip': by_strip_like('strip'), 'lower': by_strip_like('lower'),
+               'lstrip': by_strip_like('lstrip'), 'rstrip': by_strip_like('rstrip')}
 INT_METHODS = {'to_bytes': by_to_bytes}
+
+
+def by_rstrip(ex, s, recv, r, args, kw, node):
+    """bytes.rstrip() without argument, exact: x == res + tail, every byte of tail is ASCII whitespace
+    (CPython Py_ISSPACE: 9..13 and 32) and res is empty or ends in a non-whitespace byte."""
+    if (args and args[0] is not VNone) or kw or not isinstance(r, VBytes):
+        raise Unsupported('rstrip with an argument / on str')
+    res = z3.Const(fresh_name('rstrip'), BytesS)
+    tail = z3.Const(fresh_name('rstrip_tail'), BytesS)
+    j = z3.Int(fresh_name('rsj'))
+    ws = lambda b: z3.Or(z3.And(b >= 9, b <= 13), b == 32)
+    s.assume(r.z == z3.Concat(res, tail))
+    s.assume(z3.ForAll([j], z3.Implies(z3.And(j >= 0, j < z3.Length(tail)), ws(tail[j]))))
+    s.assume(z3.Or(z3.Length(res) == 0, z3.Not(ws(res[z3.Length(res) - 1]))))
+    return [(s, VBytes(res, mutable=r.mutable))]
+
+
+BYTES_METHODS['rstrip'] = by_rstrip
+BYTES_METHODS.setdefault('upper', by_strip_like('upper'))      # bytes.upper(): uninterpreted, not longer
 
 
 # ------------------------------------------------------------------ lists
@@ -563,7 +814,12 @@ def li_append(ex, s, recv, r, args, kw, node):
     if isinstance(r, VList):
         _store_recv(ex, s, node, VList(r.items + (args[0],)))
     else:
-        _store_recv(ex, s, node, VSeq(z3.Concat(r.z, z3.Unit(to_z3(args[0], r.elem))), r.elem, origin=r.origin))
+        x = args[0]
+        if isinstance(x, VOrExc) and r.elem.kind != 'orexc':
+            # a data-or-exception value stored into a homogeneous list: proved (not assumed) to be data here
+            ex.oblige(s, 'element-is-data-not-exception', z3.Not(x.isexc), node)
+            x = x.val
+        _store_recv(ex, s, node, VSeq(z3.Concat(r.z, z3.Unit(to_z3(x, r.elem))), r.elem, origin=r.origin))
     return [(s, VNone)]
 
 
@@ -599,8 +855,21 @@ def li_pop(ex, s, recv, r, args, kw, node):
             out.append(_raise(s2, 'IndexError'))
             continue
         j = simp(z3.If(i < 0, i + n, i))
+        if getattr(ex.spec, 'pop_front_witness', False) and z3.is_int_value(j) and j.as_long() == 0:
+            # opt-in (spec.pop_front_witness): a non-empty list IS head :: tail - name the two parts (skolem
+            # witnesses) instead of building nth/extract terms; same values, but z3 can find models of it
+            es = r.z.sort().basis()
+            hd = z3.Const(fresh_name('pop_head'), es)
+            tl = z3.Const(fresh_name('pop_tail'), r.z.sort())
+            s2.assume(r.z == z3.Concat(z3.Unit(hd), tl))
+            _store_recv(ex, s2, node, VSeq(tl, r.elem, origin=r.origin))
+            out.append((s2, from_z3(hd, r.elem)))
+            continue
         v = from_z3(r.z[j], r.elem)
-        nz = z3.Concat(z3.Extract(r.z, z3.IntVal(0), j), z3.Extract(r.z, j + 1, n - j - 1))
+        if z3.is_int_value(j) and j.as_long() == 0:
+            nz = z3.Extract(r.z, z3.IntVal(1), n - 1)       # pop(0): the tail, without the empty prefix
+        else:
+            nz = z3.Concat(z3.Extract(r.z, z3.IntVal(0), j), z3.Extract(r.z, j + 1, n - j - 1))
         _store_recv(ex, s2, node, VSeq(nz, r.elem, origin=r.origin))
         out.append((s2, v))
     return out
@@ -666,7 +935,11 @@ def di_get(ex, s, recv, r, args, kw, node):
     ex.note_mapkey(s, r, kz)
     out = []
     for s2, has in ex.branch(s, z3.Select(r.dom, kz), node):
-        out.append((s2, ex.map_value(s2, r, kz) if has else default))
+        mv = ex.map_value(s2, r, kz) if has else default
+        if has and isinstance(mv, VSeq) and getattr(ex.spec, 'alias_map_lists', False):
+            # d.get(k, ...) returns the stored list object itself: the result is an alias of the map entry
+            mv = ex.alias_map_entry(mv, node.func.value, kz, r)
+        out.append((s2, mv))
     return out
 
 
@@ -697,5 +970,499 @@ def di_pop(ex, s, recv, r, args, kw, node):
     return out
 
 
-DICT_METHODS = {'get': di_get, 'pop': di_pop}
+def di_update(ex, s, recv, r, args, kw, node):
+    """d.update({const: v, ...}) / d.update(k=v): successive stores, left to right"""
+    o = ex.deref(s, args[0]) if args else VDict({})
+    if len(args) > 1 or not isinstance(o, VDict):
+        raise Unsupported('dict.update with a non-literal argument')
+    items = [(wrap_const(k), v) for k, v in o.items.items()] + [(VStr(k), v) for k, v in kw.items()]
+    if isinstance(r, VDict):
+        d = dict(r.items)
+        for k, v in items:
+            d[_ckey(k)] = v
+        _store_recv(ex, s, node, VDict(d))
+        return [(s, VNone)]
+    m = r
+    for k, v in items:
+        if m.vt.kind == 'obj':
+            raise Unsupported('update of object-valued symbolic map')
+        kz = to_z3(k, m.kt)
+        m = VMap(z3.Store(m.dom, kz, True), z3.Store(m.val, kz, to_z3(ex.deref(s, v), m.vt)), m.kt, m.vt)
+        ex.note_mapkey(s, m, kz)
+    _store_recv(ex, s, node, m)
+    return [(s, VNone)]
+
+
+def py_list_mutator(extend):
+    """append / extend on a dynamically typed value: AttributeError unless it is a list (held by value)"""
+    def f(ex, s, recv, r, args, kw, node):
+        P = pyobj_sort()
+        out = []
+        for s2, islist in ex.branch(s, P.is_py_strlist(r.z), node):
+            if not islist:
+                out.append(_raise(s2, 'AttributeError'))
+                continue
+            a = ex.deref(s2, args[0])
+            if extend:
+                if isinstance(a, VSeq) and a.elem.kind == 'str':
+                    add = a.z
+                elif isinstance(a, (VList, VTuple)) and all(isinstance(i, VStr) for i in a.items):
+                    add = to_z3(VList(a.items), 'seq[str]')
+                else:
+                    raise Unsupported(f'pyobj list.extend({a!r})')
+            else:
+                if not isinstance(a, VStr):
+                    raise Unsupported(f'pyobj list.append({a!r})')
+                add = z3.Unit(a.z)
+            _store_recv(ex, s2, node, VPy(P.py_strlist(z3.Concat(P.py_l(r.z), add))))
+            out.append((s2, VNone))
+        return out
+    return f
+
+
+DICT_METHODS = {'get': di_get, 'pop': di_pop, 'update': di_update}
+PYOBJ_METHODS = {'append': py_list_mutator(False), 'extend': py_list_mutator(True)}
 SET_METHODS = {}
+
+
+# ------------------------------------------------------------------ generator expressions and their consumers
+# A generator expression evaluates to VTag('genexp', payload=<ast>) (engine.ev_GeneratorExp); its body must be pure
+# (engine.pure_value).  Over a concrete iterable the consumers unroll; over a symbolic sequence any()/all() become
+# bounded quantifiers, next() is specified by its least witness, and accumulating consumers (list +=) are cut like
+# a for-loop with a sidecar invariant LoopSpec under the key 'g<n>' (n-th generator expression in source order).
+
+def _gen_iter(ex, s, g, node):
+    out = []
+    for s2, it in ex.ev(g.generators[0].iter, s):
+        if isinstance(it, Raised):
+            out.append((s2, it))
+            continue
+        it = ex.deref(s2, it)
+        if isinstance(it, VOpt) or it is VNone:
+            out.extend(ex.unopt(s2, it, node))       # iterating None: TypeError
+            continue
+        out.append((s2, it))
+    return out
+
+
+def _concrete_items(it):
+    if isinstance(it, (VTuple, VList)):
+        return list(it.items)
+    if isinstance(it, VStr):
+        c = concrete_str(it)
+        if c is not None:
+            return [VStr(ch) for ch in c]
+    return None
+
+
+def _sym_elem(it, k):
+    if isinstance(it, VSeq):
+        return from_z3(it.z[k], it.elem)
+    if isinstance(it, VStr):
+        return VStr(z3.SubString(it.z, k, 1))
+    raise Unsupported(f'generator over {it!r}')
+
+
+def _is_gen(v):
+    return isinstance(v, VTag) and v.tag == 'genexp'
+
+
+def b_anyall(is_any):
+    def f(ex, s, args, kw, node):
+        a = args[0]
+        if not _is_gen(a):
+            v = ex.deref(s, a)
+            if isinstance(v, (VTuple, VList)):
+                zs = [ex.truthy(s, x) for x in v.items] + [z3.BoolVal(not is_any)]
+                return [(s, VBool(z3.Or(*zs) if is_any else z3.And(*zs)))]
+            raise Unsupported('any/all of a symbolic iterable that is not a generator expression')
+        g = a.payload
+        out = []
+        for s2, it in _gen_iter(ex, s, g, node):
+            if isinstance(it, Raised):
+                out.append((s2, it))
+                continue
+            items = _concrete_items(it)
+            if items is not None:
+                zs = []
+                for x in items:
+                    cond, val, p = ex.gen_probe(s2, g, x)
+                    t = ex.truthy(p, val)
+                    zs.append(z3.And(cond, t) if is_any else z3.Implies(cond, t))
+                    if len(p.calls) != len(s2.calls):
+                        s2.heap['__cut__'] = True       # calls made by the body are not in the replay script
+                zs.append(z3.BoolVal(not is_any))
+                r = z3.Or(*zs) if is_any else z3.And(*zs)
+            else:
+                k = z3.Int(fresh_name('gk'))
+                cond, val, p = ex.gen_probe(s2, g, _sym_elem(it, k))
+                t = ex.truthy(p, val)
+                rng = z3.And(k >= 0, k < z3.Length(it.z))
+                r = z3.Exists([k], z3.And(rng, cond, t)) if is_any else \
+                    z3.ForAll([k], z3.Implies(z3.And(rng, cond), t))
+                s2.heap['__cut__'] = True
+            out.append((s2, VBool(r)))
+        return out
+    return f
+
+
+def b_next(ex, s, args, kw, node):
+    """next(<generator expression>[, default]): the element expression at the least index passing the filters"""
+    a = args[0]
+    if not _is_gen(a):
+        raise Unsupported('next() of something that is not a generator expression')
+    g = a.payload
+    has_default = len(args) > 1
+    out = []
+
+    def exhausted(sx):
+        out.append((sx, args[1]) if has_default else _raise(sx, 'StopIteration'))
+    for s2, it in _gen_iter(ex, s, g, node):
+        if isinstance(it, Raised):
+            out.append((s2, it))
+            continue
+        items = _concrete_items(it)
+        if items is not None:
+            rest = s2
+            for x in items:
+                cond, val, p = ex.gen_probe(rest, g, x)
+                nxt = None
+                for s3, side in ex.branch(rest, cond, node):
+                    if side:
+                        out.append((s3, val))
+                    else:
+                        nxt = s3
+                rest = nxt
+                if rest is None:
+                    break
+            if rest is not None:
+                exhausted(rest)
+            continue
+        s2.heap['__cut__'] = True
+        n = z3.Length(it.z)
+        k = z3.Int(fresh_name('gk'))
+        cond, _val, _p = ex.gen_probe(s2, g, _sym_elem(it, k))
+        some = z3.Exists([k], z3.And(k >= 0, k < n, cond))
+        for s3, found in ex.branch(s2, some, node):
+            if not found:
+                exhausted(s3)
+                continue
+            k0 = z3.Int(fresh_name('next_k'))
+            cond0, val0, _p0 = ex.gen_probe(s3, g, _sym_elem(it, k0))
+            s3.assume(z3.And(k0 >= 0, k0 < n, cond0))
+            s3.assume(z3.ForAll([k], z3.Implies(z3.And(k >= 0, k < k0), z3.Not(cond))))
+            out.append((s3, val0))
+    return out
+
+
+def b_enumerate(ex, s, args, kw, node):
+    if len(args) != 1 or kw:
+        raise Unsupported('enumerate with a start value')
+    v = ex.deref(s, args[0])
+    if isinstance(v, (VTuple, VList)):
+        return [(s, VTuple([VTuple([VInt(i), x]) for i, x in enumerate(v.items)]))]
+    return [(s, VTag('enumerate', payload=v))]
+
+
+def gen_ordinal(ex, g):
+    import ast as _ast
+    gens = [n for n in _ast.walk(ex.func) if isinstance(n, _ast.GeneratorExp)]
+    gens.sort(key=lambda x: (x.lineno, x.col_offset))
+    for i, n in enumerate(gens, 1):
+        if n is g:
+            return i
+    raise Unsupported('generator expression not found in the analysed function')
+
+
+def gen_to_seq(ex, s, v, node, elem=None):
+    """the list of values a generator expression (or list value) yields -> list[(state, VSeq | Raised)]"""
+    if not _is_gen(v):
+        v = ex.deref(s, v)
+        if isinstance(v, VSeq):
+            return [(s, v)]
+        if isinstance(v, (VList, VTuple)) and elem is not None:
+            return [(s, VSeq(to_z3(VList(v.items), T('seq', [parse_type(elem)])), elem))]
+        raise Unsupported(f'list extension with {v!r}')
+    g = v.payload
+    out = []
+    for s2, it in _gen_iter(ex, s, g, node):
+        if isinstance(it, Raised):
+            out.append((s2, it))
+            continue
+        if _concrete_items(it) is not None:
+            raise Unsupported('accumulating generator over a concrete iterable')
+        out.extend(cut_gen(ex, s2, g, it, node))
+    return out
+
+
+def cut_gen(ex, s, g, it, node, join=False):
+    """[elt for x in it if cond] over a symbolic sequence, cut like a for-loop at the invariant of LoopSpec 'g<n>'.
+    The invariant sees c.extra = {i, iter, acc}; acc (a VSeq of the declared LoopSpec.acc_type) is the list built so
+    far (join=True: ''.join(...), acc is the VStr built so far).  Obligations: inv-entry (i=0, acc=[]), inv-preserved for one more element; at exit (i == len) the invariant
+    is what is known about the result."""
+    ordn = gen_ordinal(ex, g)
+    key = f'g{ordn}'
+    lspec = ex.spec.loops.get(key)
+    if lspec is None:
+        raise Unsupported(f'generator expression #{ordn} at line {g.lineno} over a symbolic iterable has no '
+                          f'invariant (LoopSpec under key {key!r})')
+    et = parse_type(getattr(lspec, 'acc_type', None) or 'any')
+    sq = T('seq', [et])
+    n = z3.Length(it.z)
+    entry = s.fork()
+    out = []
+
+    def inv(sx, i, acc):
+        return lspec.invariant(ex.loop_ctx(sx, entry, {'i': i, 'iter': it, 'acc': acc}))
+
+    def lemmas(sx, i, acc, head):
+        if lspec.lemmas:
+            lc = ex.loop_ctx(sx, entry, {'i': i, 'iter': it, 'acc': acc})
+            lc.head = head
+            ex.use_lemmas(sx, lspec.lemmas(lc), node)
+    if lspec.lemmas:
+        lemmas(s, z3.IntVal(0), VStr('') if join else VSeq(z3.Empty(sort_of(sq)), et), entry)
+    ex.oblige(s, f'inv-entry(gen{ordn})', inv(s, z3.IntVal(0), VStr('') if join else VSeq(z3.Empty(sort_of(sq)), et)), g)
+    h = s.fork()
+    h.heap['__cut__'] = True
+    i = z3.Int(fresh_name(f'gen{ordn}_i'))
+    acc = VStr(z3.String(fresh_name(f'gen{ordn}_acc'))) if join else \
+        VSeq(z3.Const(fresh_name(f'gen{ordn}_acc'), sort_of(sq)), et)
+    h.assume(z3.And(i >= 0, i <= n))
+    h.assume(inv(h, i, acc))
+    hsnap = h.fork()
+    for s2, more in ex.branch(h, i < n, node):
+        if not more:
+            lemmas(s2, i, acc, hsnap)
+            out.append((s2, acc))
+            continue
+        cond, val, _p = ex.gen_probe(s2, g, _sym_elem(it, i))
+        for s3, keep in ex.branch(s2, cond, node):
+            if join and keep and not isinstance(val, VStr):
+                raise Unsupported('str.join over a generator of non-str values')
+            acc2 = acc if not keep else (VStr(z3.Concat(acc.z, val.z)) if join else
+                                         VSeq(z3.Concat(acc.z, z3.Unit(to_z3(val, et))), et))
+            lemmas(s3, i + 1, acc2, hsnap)
+            ex.oblige(s3, f'inv-preserved(gen{ordn})', inv(s3, i + 1, acc2), g)
+    return out
+
+
+FREE.update({'any': b_anyall(True), 'all': b_anyall(False), 'next': b_next, 'enumerate': b_enumerate})
+
+
+# ------------------------------------------------------------------ run-time sets, super()  (added for C16)
+
+def _elem_kind(v):
+    return {VBytes: 'bytes', VStr: 'str', VInt: 'int'}.get(type(v))
+
+
+def b_set(ex, s, args, kw, node):
+    """set(iterable of bytes/str/int): a NEW mutable set object (heap cell).  Sets built at run time are symbolic:
+    a VMap whose domain is the membership predicate (values unused), flagged is_set."""
+    if not args:
+        raise Unsupported('set() without elements: element type unknown')
+    it = ex.deref(s, args[0])
+    if isinstance(it, VSeq):
+        # set(<symbolic list>): the set of its elements, set_of(seq) (recursive spec function: uninterpreted here,
+        # contracts use instances of  set_of([]) = {}  and  set_of(xs ++ [x]) = set_of(xs) | {x})
+        return [(s, VSymSet(set_of_fn(it.elem)(it.z), it.elem))]
+    if not isinstance(it, (VTuple, VList)) or not it.items:
+        raise Unsupported(f'set({it!r})')
+    items = [ex.deref(s, x) for x in it.items]
+    kt = _elem_kind(items[0])
+    if kt is None or any(_elem_kind(x) != kt for x in items):
+        raise Unsupported('set() of elements other than bytes/str/int of one type')
+    ks = sort_of(kt)
+    dom = z3.K(ks, z3.BoolVal(False))
+    for x in items:
+        dom = z3.Store(dom, x.z, z3.BoolVal(True))
+    m = VMap(dom, z3.K(ks, z3.BoolVal(True)), kt, 'bool')
+    m.is_set = True
+    return [(s, s.alloc(m))]
+
+
+def b_super(ex, s, args, kw, node):
+    """zero-argument super(): represented by the instance itself; the method it resolves to must be given by the
+    sidecar under the textual key 'super().<method>' (inline or stub)."""
+    if args:
+        raise Unsupported('super() with arguments')
+    params = ex.func.args.args
+    if not params or params[0].arg not in s.env:
+        raise Unsupported('super() outside a method')
+    return [(s, s.env[params[0].arg])]
+
+
+_dict_update = DICT_METHODS.get('update')
+
+
+def se_update(ex, s, recv, r, args, kw, node):
+    """set.update(iterable) / set.add(x) IN PLACE: every alias of the set object sees the new members"""
+    if not getattr(r, 'is_set', False):
+        if node.func.attr == 'update' and _dict_update is not None:
+            return _dict_update(ex, s, recv, r, args, kw, node)
+        raise Unsupported('add/update on a dict-typed map')
+    if node.func.attr == 'add':
+        new = [ex.deref(s, args[0])]
+    else:
+        it = ex.deref(s, args[0])
+        if not isinstance(it, (VTuple, VList)):
+            raise Unsupported(f'set.update({it!r})')
+        new = [ex.deref(s, x) for x in it.items]
+    dom = r.dom
+    for x in new:
+        dom = z3.Store(dom, to_z3(x, r.kt), z3.BoolVal(True))
+    m = VMap(dom, r.val, r.kt, r.vt)
+    m.is_set = True
+    if isinstance(recv, VRef) and not isinstance(s.heap[recv.addr], Record_t()):
+        s.heap[recv.addr] = m        # the shared cell itself is mutated
+    else:
+        _store_recv(ex, s, node, m)
+    return [(s, VNone)]
+
+
+def set_of_fn(elem):
+    """set_of : Seq(E) -> Array(E, Bool), the set of elements of a list (see b_set)"""
+    es = sort_of(elem)
+    nm = re.sub(r'\W+', '_', repr(parse_type(elem)))
+    return z3.Function('set_of_' + nm, z3.SeqSort(es), z3.ArraySort(es, BoolS))
+
+
+def ss_add(ex, s, recv, r, args, kw, node):
+    """<symbolic set>.add(x): in place"""
+    xz = to_z3(ex.deref(s, args[0]), r.elem)
+    s.heap['__setkeys__'] = tuple(s.heap.get('__setkeys__', ())) + (xz,)
+    _store_recv(ex, s, node, VSymSet(z3.Store(r.z, xz, z3.BoolVal(True)), r.elem))
+    return [(s, VNone)]
+
+
+def ss_remove(strict):
+    def f(ex, s, recv, r, args, kw, node):
+        """<symbolic set>.remove(x) / .discard(x): in place; remove raises KeyError when x is absent"""
+        xz = to_z3(ex.deref(s, args[0]), r.elem)
+        s.heap['__setkeys__'] = tuple(s.heap.get('__setkeys__', ())) + (xz,)
+        out = []
+        for s2, has in ex.branch(s, z3.Select(r.z, xz), node):
+            if has:
+                _store_recv(ex, s2, node, VSymSet(z3.Store(r.z, xz, z3.BoolVal(False)), r.elem))
+                out.append((s2, VNone))
+            elif strict:
+                out.append(_raise(s2, 'KeyError'))
+            else:
+                out.append((s2, VNone))
+        return out
+    return f
+
+
+SYMSET_METHODS = {'add': ss_add, 'remove': ss_remove(True), 'discard': ss_remove(False)}
+FREE.update({'set': b_set, 'super': b_super})
+DICT_METHODS.update({'update': se_update, 'add': se_update})
+
+
+def st_replace(ex, s, recv, r, args, kw, node):
+    """str.replace(old, new) with a concrete non-empty `old`: SMT-LIB str.replace_all (same left-to-right,
+    non-overlapping semantics as CPython for a non-empty pattern)"""
+    if len(args) != 2 or kw or not isinstance(r, VStr):
+        raise Unsupported('replace with count / on bytes')
+    old, new = ex.deref(s, args[0]), ex.deref(s, args[1])
+    if not concrete_str(old) or not isinstance(new, VStr):
+        raise Unsupported('str.replace with a symbolic or empty pattern')
+    ctx = r.z.ctx
+    z = z3.SeqRef(z3.Z3_mk_seq_replace_all(ctx.ref(), r.z.as_ast(), old.z.as_ast(), new.z.as_ast()), ctx)
+    return [(s, VStr(z))]
+
+
+STR_METHODS.update({'replace': st_replace})
+
+
+def st_split(ex, s, recv, r, args, kw, node):
+    """str.split(None[, k]) (whitespace split): an uninterpreted list of fields wsplit_s(x, k) with the facts
+    len <= k+1 (k >= 0) and  no field at all  <=>  x.strip() == ''  (same whitespace notion; assumed contract of
+    the built-in).  Everything else is delegated to by_split."""
+    if isinstance(r, VStr) and (not args or args[0] is VNone):
+        ms = args[1] if len(args) > 1 else kw.get('maxsplit')
+        k = ex.as_int(ms) if ms is not None else z3.IntVal(-1)
+        f = z3.Function('wsplit_s', StrS, IntS, z3.SeqSort(StrS))
+        stripf = z3.Function('strip_s', StrS, StrS)
+        pieces = f(r.z, k)
+        s.assume(z3.Implies(k >= 0, z3.Length(pieces) <= k + 1))
+        s.assume((z3.Length(pieces) == 0) == (z3.Length(stripf(r.z)) == 0))
+        return [(s, VSeq(pieces, 'str'))]
+    return by_split(ex, s, recv, r, args, kw, node)
+
+
+def st_splitlines(ex, s, recv, r, args, kw, node):
+    if args or kw or not isinstance(r, VStr):
+        raise Unsupported('splitlines with arguments / on bytes')
+    return [(s, VSeq(z3.Function('splitlines_s', StrS, z3.SeqSort(StrS))(r.z), 'str'))]
+
+
+STR_METHODS.update({'split': st_split, 'splitlines': st_splitlines})
+
+
+def di_setdefault(ex, s, recv, r, args, kw, node):
+    """d.setdefault(k, []) on a symbolic map whose values are lists (dict[K,seq[T]]) or dynamically typed
+    (dict[K,pyobj]): returns the stored value, inserting an empty list first when the key is absent.  The returned
+    list is the object held by the map: an in-place mutation through the local it is bound to is written back to
+    the map entry (origin link)."""
+    if not (isinstance(r, VMap) and r.vt.kind in ('pyobj', 'seq') and len(args) == 2):
+        raise Unsupported('setdefault: only dict[K,pyobj|seq[T]].setdefault(k, []) is modelled')
+    dflt = ex.deref(s, args[1])
+    if not (isinstance(dflt, VList) and not dflt.items):
+        raise Unsupported('setdefault with a default other than []')
+    dyn = r.vt.kind == 'pyobj'
+    kz = to_z3(args[0], r.kt)
+    ex.note_mapkey(s, r, kz)
+    container = node.func.value
+    out = []
+
+    def wrap(z):
+        return VPy(z) if dyn else VSeq(z, r.vt.args[0])
+
+    def origin(st, old, new):
+        (st1, cur), = ex.ev(container, st)
+        cur = ex.deref(st1, cur)
+        if not isinstance(cur, VMap):
+            raise Unsupported('aliased list: its map is no longer a symbolic map')
+        ex.store_container(st, container, VMap(z3.Store(cur.dom, kz, True), z3.Store(cur.val, kz, new.z),
+                                               cur.kt, cur.vt))
+    for s2, has in ex.branch(s, z3.Select(r.dom, kz), node):
+        if has:
+            v = wrap(z3.Select(r.val, kz))
+        else:
+            empty = pyobj_sort().py_strlist(z3.Empty(z3.SeqSort(StrS))) if dyn else z3.Empty(sort_of(r.vt))
+            ex.store_container(s2, container, VMap(z3.Store(r.dom, kz, True), z3.Store(r.val, kz, empty), r.kt, r.vt))
+            v = wrap(empty)
+        v.origin = origin
+        out.append((s2, v))
+    return out
+
+
+DICT_METHODS.update({'setdefault': di_setdefault})
+_st_split_general = st_split
+
+
+def st_split1(ex, s, recv, r, args, kw, node):
+    """str.split(sep, 1) with a concrete non-empty sep, exact: [x] when sep does not occur, else
+    [x[:k], x[k+len(sep):]] for the first occurrence k (a concrete 1- or 2-element list; one path each)"""
+    ms = args[1] if len(args) > 1 else kw.get('maxsplit')
+    if isinstance(r, VStr) and args and args[0] is not VNone and ms is not None and concrete_int(ms) == 1 \
+            and concrete_str(ex.deref(s, args[0])):
+        sep = ex.deref(s, args[0])
+        out = []
+        for s2, has in ex.branch(s, z3.Contains(r.z, sep.z), node):
+            if not has:
+                out.append((s2, s2.alloc(VList([r]))))
+                continue
+            k = z3.IndexOf(r.z, sep.z, z3.IntVal(0))
+            a = z3.SubString(r.z, z3.IntVal(0), k)
+            b = z3.SubString(r.z, k + z3.Length(sep.z), z3.Length(r.z) - k - z3.Length(sep.z))
+            out.append((s2, s2.alloc(VList([VStr(a), VStr(b)]))))
+        return out
+    return _st_split_general(ex, s, recv, r, args, kw, node)
+
+
+STR_METHODS.update({'split': st_split1})
+# bytes/str .rstrip()/.lstrip(): same abstraction as .strip() (uninterpreted, never longer than the receiver)
+for _n in ('rstrip', 'lstrip'):
+    BYTES_METHODS.setdefault(_n, by_strip_like(_n))
+    STR_METHODS.setdefault(_n, by_strip_like(_n))
